@@ -438,7 +438,7 @@ def rule_constructs(ctx: Ctx, out: Collector) -> None:
             else:
                 out.bad('BD-8', cons8, ctx.p.loc(trav, c),
                         f'two different declared parameters can get the same synthetic node id ({why8}): their synthetic nodes collapse, '
-                        f'the case / candidate tables merge and one parameter receives the other\'s value', props={'C15', 'C09', 'C10'})
+                        f'the case / candidate tables merge and one parameter receives the other\'s value', props={'C15', 'C09', 'C10', 'C03'})
 
     # ---- recurrent
     rc = br.get('RecurrentSubGraphMark')
